@@ -4,7 +4,7 @@
     catalogue entry packs a typed model region ([MRegion]) with conversions to and from [uval] and
     a [probe] that renders a read item through all of its accessors. *)
 From FC Require Import Base.Res Index.IC Index.Stride Region.Region Region.Owned Region.Simple
-  Region.Slice Region.Collapse Region.Consec Region.Columns Region.Items Resource.Res.
+  Region.Slice Region.Collapse Region.Consec Region.Columns Region.Items Region.ItemsOk Region.Compare Resource.Res.
 Set Implicit Arguments.
 
 Inductive uval :=
@@ -56,16 +56,16 @@ Definition leaf_probe (R : Region) (I : Items R) (to_u : val R -> uval) (x : ite
 
 (** * element types *)
 Record Elem := { e_ty : Type; e_of : uval -> option e_ty; e_to : e_ty -> uval; e_eqb : e_ty -> e_ty -> bool;
-                 e_sz : N (* size_of *) }.
+                 e_sz : N (* size_of *); e_cmp : option (e_ty -> e_ty -> comparison) (* Ord, if any *) }.
 (** unsigned integers below [2^bits] (u8 .. u64, usize); [f64] travels as its bit pattern and is
     compared with IEEE [==] by [f64_eqb] *)
 Definition e_word (bits : N) : Elem := {|
   e_ty := N;
   e_of := fun u => match u with UN n => if (n <? 2 ^ bits)%N then Some n else None | _ => None end;
-  e_to := UN; e_eqb := N.eqb; e_sz := (bits / 8)%N |}.
+  e_to := UN; e_eqb := N.eqb; e_sz := (bits / 8)%N; e_cmp := Some N.compare |}.
 Definition e_unit : Elem := {|
   e_ty := unit; e_of := fun u => match u with UL [] => Some tt | _ => None end;
-  e_to := fun _ => UL []; e_eqb := fun _ _ => true; e_sz := 0%N |}.
+  e_to := fun _ => UL []; e_eqb := fun _ _ => true; e_sz := 0%N; e_cmp := Some (fun _ _ => Eq) |}.
 
 (** IEEE-754 binary64 [==] on bit patterns: NaN is unequal to everything, +0 == -0. *)
 Definition f64_is_nan (b : N) : bool :=
@@ -78,7 +78,7 @@ Definition f64_eqb (a b : N) : bool :=
 Definition e_f64 : Elem := {|
   e_ty := N;
   e_of := fun u => match u with UN n => if (n <? 2 ^ 64)%N then Some n else None | _ => None end;
-  e_to := UN; e_eqb := f64_eqb; e_sz := 8%N |}.
+  e_to := UN; e_eqb := f64_eqb; e_sz := 8%N; e_cmp := None |}.
 
 Definition list_eqb {A} (eqb : A -> A -> bool) : list A -> list A -> bool :=
   fix go l m := match l, m with
@@ -94,6 +94,7 @@ Record MRegion := {
   mw : Wire mi;
   m_veq : val mr -> val mr -> bool;       (* [PartialEq] between a pushed value and a read item *)
   m_res : Res mr;                         (* used bytes per heap_size callback, announced bytes *)
+  m_ord : option (ItemOrd mi);            (* Ord of the read items, where the Rust type has one *)
 }.
 
 Definition m_owned (E : Elem) : MRegion := {|
@@ -103,19 +104,21 @@ Definition m_owned (E : Elem) : MRegion := {|
           (fun v => UL (map (e_to E) v))
           (fun i : nat * nat => upair (fst i) (snd i))
           (fun x : list (e_ty E) => Ok (UL (map (e_to E) x)));
-  m_veq := list_eqb (e_eqb E); m_res := owned_res (e_ty E) (e_sz E) |}.
+  m_veq := list_eqb (e_eqb E); m_res := owned_res (e_ty E) (e_sz E);
+  m_ord := option_map (@owned_ord (e_ty E)) (e_cmp E) |}.
 
 Definition m_mirror (E : Elem) : MRegion := {|
   mr := mirror (e_ty E); mi := mirror_items (e_ty E);
   mw := @Build_Wire (mirror (e_ty E)) (mirror_items (e_ty E))
           (e_of E) (e_to E) (e_to E) (fun x : e_ty E => Ok (e_to E x));
-  m_veq := e_eqb E; m_res := mirror_res (e_ty E) |}.
+  m_veq := e_eqb E; m_res := mirror_res (e_ty E); m_ord := option_map (@mirror_ord (e_ty E)) (e_cmp E) |}.
 
 Definition m_vec (E : Elem) : MRegion := {|
   mr := vec_region (e_ty E); mi := vec_region_items (e_ty E);
   mw := @Build_Wire (vec_region (e_ty E)) (vec_region_items (e_ty E))
           (e_of E) (e_to E) (fun i : nat => unat i) (fun x : e_ty E => Ok (e_to E x));
-  m_veq := e_eqb E; m_res := vec_region_res (e_ty E) (e_sz E) |}.
+  m_veq := e_eqb E; m_res := vec_region_res (e_ty E) (e_sz E);
+  m_ord := option_map (@vec_region_ord (e_ty E)) (e_cmp E) |}.
 
 (** [StringRegion<R>] over a byte region; strings travel as byte lists. The [Push] impls only
     take string types, so an input that is not valid UTF-8 is ill-typed ([utf8_valid] lives in
@@ -125,7 +128,8 @@ Definition m_string (wf : uval -> bool) (M : MRegion) : MRegion := {|
   mw := @Build_Wire (string_region (mr M)) (string_items (mi M))
           (fun u => if wf u then of_u (mw M) u else None)
           (to_u (mw M)) (idx_u (mw M)) (probe (mw M));
-  m_veq := m_veq M; m_res := string_res (m_res M) |}.
+  m_veq := m_veq M; m_res := string_res (m_res M);
+  m_ord := option_map (@string_ord (mr M) (mi M)) (m_ord M) |}.
 
 Definition m_option (M : MRegion) : MRegion := {|
   mr := option_region (mr M); mi := option_items (mi M);
@@ -144,7 +148,7 @@ Definition m_option (M : MRegion) : MRegion := {|
                       | Some x, Some y => m_veq M x y
                       | _, _ => false
                       end;
-  m_res := option_res (m_res M) |}.
+  m_res := option_res (m_res M); m_ord := option_map (@option_ord (mr M) (mi M)) (m_ord M) |}.
 
 Definition m_result (A B : MRegion) : MRegion := {|
   mr := result_region (mr A) (mr B); mi := result_items (mi A) (mi B);
@@ -168,7 +172,8 @@ Definition m_result (A B : MRegion) : MRegion := {|
                       | inr x, inr y => m_veq B x y
                       | _, _ => false
                       end;
-  m_res := result_res (m_res A) (m_res B) |}.
+  m_res := result_res (m_res A) (m_res B);
+  m_ord := match m_ord A, m_ord B with Some a, Some b => Some (result_ord a b) | _, _ => None end |}.
 
 Definition m_tuple2 (A B : MRegion) : MRegion := {|
   mr := tuple2 (mr A) (mr B); mi := tuple2_items (mi A) (mi B);
@@ -183,7 +188,8 @@ Definition m_tuple2 (A B : MRegion) : MRegion := {|
           (fun x : item (mi A) * item (mi B) =>
              let* p := probe (mw A) (fst x) in let* q := probe (mw B) (snd x) in Ok (UL [p; q]));
   m_veq := fun a b => m_veq A (fst a) (fst b) && m_veq B (snd a) (snd b);
-  m_res := tuple2_res (m_res A) (m_res B) |}.
+  m_res := tuple2_res (m_res A) (m_res B);
+  m_ord := match m_ord A, m_ord B with Some a, Some b => Some (tuple2_ord a b) | _, _ => None end |}.
 
 (** the report of a sequence-like read item: len, is_empty, get(0 .. len+1), iteration, owned *)
 Section SeqProbe.
@@ -215,24 +221,27 @@ Definition m_slice (M : MRegion) (O : IC (idx (mr M))) : MRegion := {|
           (fun x : rslice (mr M) O =>
              seq_probe (mw M) (rs_len (O := O)) (rs_is_empty (O := O)) (rs_get (mi M))
                        (rs_iter (mi M)) (own (slice_items O (mi M))) x);
-  m_veq := list_eqb (m_veq M); m_res := slice_res O 0 (m_res M) |}.
+  m_veq := list_eqb (m_veq M); m_res := slice_res O 0 (m_res M);
+  m_ord := option_map (@slice_ord (mr M) O (mi M)) (m_ord M) |}.
 
 (** [SliceRegion<R, Vec<R::Index>>]: the same region with the announced index bytes known *)
 Definition m_slice_vec (M : MRegion) (isz : N) : MRegion :=
   let S := m_slice M (vec_ic (idx (mr M)) isz) in
-  {| mr := mr S; mi := mi S; mw := mw S; m_veq := m_veq S; m_res := slice_vec_res isz (m_res M) |}.
+  {| mr := mr S; mi := mi S; mw := mw S; m_veq := m_veq S; m_res := slice_vec_res isz (m_res M); m_ord := m_ord S |}.
 
 Definition m_collapse (M : MRegion) : MRegion := {|
   mr := collapse (mr M) (m_veq M); mi := collapse_items (m_veq M) (mi M);
   mw := @Build_Wire (collapse (mr M) (m_veq M)) (collapse_items (m_veq M) (mi M))
           (of_u (mw M)) (to_u (mw M)) (idx_u (mw M)) (probe (mw M));
-  m_veq := m_veq M; m_res := collapse_res (m_veq M) (m_res M) |}.
+  m_veq := m_veq M; m_res := collapse_res (m_veq M) (m_res M);
+  m_ord := option_map (@collapse_ord (mr M) (m_veq M) (mi M)) (m_ord M) |}.
 
 Definition m_consec (M : MRegion) {PI : PairIdx (mr M)} (O : IC nat) (chk : bool) : MRegion := {|
   mr := consec (mr M) O chk; mi := consec_items O chk (mi M);
   mw := @Build_Wire (consec (mr M) O chk) (consec_items O chk (mi M))
           (of_u (mw M)) (to_u (mw M)) (fun k : nat => unat k) (probe (mw M));
-  m_veq := m_veq M; m_res := consec_res O chk (m_res M) |}.
+  m_veq := m_veq M; m_res := consec_res O chk (m_res M);
+  m_ord := option_map (@consec_ord (mr M) PI O chk (mi M)) (m_ord M) |}.
 
 Definition m_columns (M : MRegion) (O : IC nat) (chk : bool) (csz isz : N) : MRegion := {|
   mr := columns (mr M) O chk; mi := columns_items O chk (mi M);
@@ -243,4 +252,4 @@ Definition m_columns (M : MRegion) (O : IC nat) (chk : bool) (csz isz : N) : MRe
           (fun x : rcols (mr M) =>
              seq_probe (mw M) (fun y => Ok (rc_len y)) (fun y => Ok (rc_is_empty y)) (rc_get (mi M))
                        (rc_iter (mi M)) (own (columns_items O chk (mi M))) x);
-  m_veq := list_eqb (m_veq M); m_res := columns_res O chk csz isz (m_res M) |}.
+  m_veq := list_eqb (m_veq M); m_res := columns_res O chk csz isz (m_res M); m_ord := None |}.
